@@ -5,7 +5,9 @@
    hypothesis ([verify] accepts (m, s) only if s = sign m; sha injective on the two messages at hand). *)
 From NDN Require Import Base.Prelude Model.TlvVar Model.Name Model.Tlv Model.Packet Model.PacketEnc
   Spec.TlvWf Spec.SignedPortion.
-From NDN Require Import Proofs.SignedPortionProofs Proofs.SignedPortionInterest Proofs.TlvRoundtrip.
+From NDN Require Import Proofs.SignedPortionProofs Proofs.SignedPortionInterest Proofs.TlvRoundtrip Proofs.PacketRoundtrip.
+From NDN Require Import Model.PacketPtrs Proofs.PtrsSpecView Proofs.PtrsData Proofs.PtrsDataMade Proofs.PtrsInterestWalk
+  Proofs.PtrsInterest Proofs.PtrsInterestMade.
 From NDN Require Generated.Schemas.
 Local Open Scope N_scope.
 
@@ -36,6 +38,112 @@ Theorem C02_sign_covers_spec_interest sha sign i m s :
     digest_component body = Some (sha (m_digest_covered m)).
 Proof. exact (fun H => interest_sign_covers_spec sha sign H i m s). Qed.
 Print Assumptions C02_sign_covers_spec_interest.
+
+(* ---- receiving side: what the decoders REPORT as covered (SignaturePtrs) ---------------------------------
+   Model/PacketPtrs.v walks the declared order reflected from the source (fields AND offset markers).  For every
+   packet value that is a sequence of well-formed elements ([strict_split] succeeds) and on which the walk
+   succeeds (it does whenever the decoder accepts: [C02_decoder_accepts_*]), the reported ranges are the
+   specified ones. *)
+Theorem C02_reported_data v sel p :
+  strict_split (S (length v)) v = Some sel ->
+  ptrs_data_with Generated.Schemas.ndn_format_0_3_DataPacketValue_layout v = Ok p ->
+  p_sig_value p = value_of_type (S (length v)) 23 v /\
+  (forall s, signed_portion_data v = Some s -> concat (p_sig_covered p) = s) /\
+  (value_of_type (S (length v)) 23 v = None -> p_sig_covered p = [] /\ p_sig_value p = None).
+Proof. exact (ptrs_data_spec v sel p). Qed.
+Print Assumptions C02_reported_data.
+
+Theorem C02_reported_certificate v sel p :
+  strict_split (S (length v)) v = Some sel ->
+  ptrs_data_with Generated.Schemas.security_v2_CertificateV2Value_layout v = Ok p ->
+  p_sig_value p = value_of_type (S (length v)) 23 v /\
+  (forall s, signed_portion_data v = Some s -> concat (p_sig_covered p) = s) /\
+  (value_of_type (S (length v)) 23 v = None -> p_sig_covered p = [] /\ p_sig_value p = None).
+Proof. exact (ptrs_cert_spec v sel p). Qed.
+Print Assumptions C02_reported_certificate.
+
+Theorem C02_decoder_accepts_data w vs v :
+  dec_data w = Ok vs -> parse_and_check_tl w TYPE_DATA = Ok v ->
+  exists p, ptrs_data_with Generated.Schemas.ndn_format_0_3_DataPacketValue_layout v = Ok p.
+Proof. exact (ptrs_data_accepts w vs v). Qed.
+Print Assumptions C02_decoder_accepts_data.
+
+Theorem C02_reported_interest_sig_value v sel p :
+  strict_split (S (length v)) v = Some sel ->
+  ptrs_interest_with Generated.Schemas.ndn_format_0_3_InterestPacketValue_layout v = Ok p ->
+  p_sig_value p = value_of_type (S (length v)) 46 v.
+Proof. exact (interest_sig_value v sel p). Qed.
+Print Assumptions C02_reported_interest_sig_value.
+
+Theorem C02_reported_interest_digest v sel p :
+  strict_split (S (length v)) v = Some sel ->
+  ptrs_interest_with Generated.Schemas.ndn_format_0_3_InterestPacketValue_layout v = Ok p ->
+  forall dc, digest_component v = Some dc -> p_dig_value p = Some dc.
+Proof. exact (interest_digest_value v sel p). Qed.
+Print Assumptions C02_reported_interest_digest.
+
+(* [params_first]: ApplicationParameters precedes InterestSignatureInfo / InterestSignatureValue, as the packet
+   format demands (a decoder-accepted Interest that violates it is reported with a range starting at the first of
+   the three; the run-time oracle judges only packets in canonical order, see DESIGN 9.6) *)
+Theorem C02_reported_interest_signed_range v sel p :
+  strict_split (S (length v)) v = Some sel ->
+  ptrs_interest_with Generated.Schemas.ndn_format_0_3_InterestPacketValue_layout v = Ok p ->
+  params_first (types sel) ->
+  forall s, signed_portion_interest v = Some s -> concat (p_sig_covered p) = s.
+Proof. exact (interest_signed_range v sel p). Qed.
+Print Assumptions C02_reported_interest_signed_range.
+
+Theorem C02_reported_interest_digest_range v sel p :
+  strict_split (S (length v)) v = Some sel ->
+  ptrs_interest_with Generated.Schemas.ndn_format_0_3_InterestPacketValue_layout v = Ok p ->
+  params_first (types sel) ->
+  forall dp, digest_portion v = Some dp -> concat (p_dig_covered p) = dp.
+Proof. exact (interest_digest_range v sel p). Qed.
+Print Assumptions C02_reported_interest_digest_range.
+
+(* both ends: for every packet the library makes with a signer -- any signer, any signature length -- the receiver's
+   decoder reports exactly the bytes the signer was given (and, for Interests, the bytes hashed into the
+   parameters digest and that digest) *)
+Theorem C02_made_data_reported sign d m s :
+  make_data sign d = Ok m -> d_sig d = Some s ->
+  N.of_nat (length (m_wire m)) < two64 ->
+  (forall sv, data_fits d sv) ->
+  fits (KModel Generated.Schemas.ndn_format_0_3_MetaInfo false) (d_meta d) ->
+  fits (KModel Generated.Schemas.ndn_format_0_3_SignatureInfo true) (si_info s) ->
+  exists body p,
+    m_wire m = tlv TYPE_DATA body /\ well_formed_value body /\
+    ptrs_data_with Generated.Schemas.ndn_format_0_3_DataPacketValue_layout body = Ok p /\
+    concat (p_sig_covered p) = m_sig_covered m /\
+    p_sig_value p = value_of_type (S (length body)) 23 body.
+Proof. exact (made_data_reported sign d m s). Qed.
+Print Assumptions C02_made_data_reported.
+
+Theorem C02_made_interest_reported sha sign i m s :
+  (forall x, length (sha x) = 32%nat) ->
+  make_interest sha sign i = Ok m -> i_sig i = Some s ->
+  N.of_nat (length (m_wire m)) < two64 ->
+  Forall wf_comp64 (i_name i) ->
+  fits (KModel [(7, KRepeated KName)] false) (hint_value (i_hint i)) ->
+  fits (KModel Generated.Schemas.ndn_format_0_3_SignatureInfo false) (si_info s) ->
+  (forall sv, interest_fits i (m_final_name m) sv) ->
+  exists body p,
+    m_wire m = tlv TYPE_INTEREST body /\ well_formed_value body /\
+    ptrs_interest_with Generated.Schemas.ndn_format_0_3_InterestPacketValue_layout body = Ok p /\
+    concat (p_sig_covered p) = m_sig_covered m /\
+    concat (p_dig_covered p) = m_digest_covered m /\
+    p_dig_value p = Some (sha (m_digest_covered m)) /\
+    p_sig_value p = value_of_type (S (length body)) 46 body.
+Proof. exact (made_interest_reported sha sign i m s). Qed.
+Print Assumptions C02_made_interest_reported.
+
+(* non-vacuity of the receiving side: the pointers of the example packet *)
+Example C02_example_reported :
+  let d := {| d_name := [comp_enc 8 [97]]; d_meta := VModel [VUint 0; VNone; VNone]; d_content := Some [104; 105];
+              d_sig := Some {| si_info := VModel [VUint 0; VNone; VNone; VNone; VNone]; si_reserved := 32 |} |} in
+  exists m p, make_data (fun _ => repeat 9 32) d = Ok m /\
+              ptrs_data_with Generated.Schemas.ndn_format_0_3_DataPacketValue_layout (skipn 2 (m_wire m)) = Ok p /\
+              concat (p_sig_covered p) = m_sig_covered m /\ p_sig_value p = Some (repeat 9 32).
+Proof. eexists. eexists. split; [vm_compute; reflexivity|]. split; [vm_compute; reflexivity|]. split; vm_compute; reflexivity. Qed.
 
 (* tamper clause, for an ideal verifier: if [verify] accepts only pairs produced by [sign], then any packet
    whose (signed portion, signature value) differs from the signed one is rejected *)
